@@ -1,5 +1,5 @@
 SPECIFICATION Spec
-CONSTANTS Kinds = {"lr", "glr", "lrrec", "lrld0"}
+CONSTANTS Kinds = {"lr", "glr", "lrrec", "glrrec", "lrld0"}
   FailKinds = {"conflict"}
   Inputs = {"ok", "bad", "act", "rec", "kw"}
   MaxSteps = 3
